@@ -280,10 +280,10 @@ func c17(args []string) int {
 	var specs []*Spec
 	n := run.N(450, 8000)
 	for i := 0; i < n; i++ {
-		sp := &Spec{Route: "forward", NHosts: 1 + r.Intn(3), RouteGlobalMs: 5*slot + 20, RetryOn: r.Intn(3) != 0, NumRetries: r.Intn(6),
+		sp := &Spec{Route: "forward", NHosts: 1 + r.Intn(3), RouteGlobalMs: 5*slot + 30, RetryOn: r.Intn(3) != 0, NumRetries: r.Intn(6),
 			RouteHeaderActions: r.Intn(4) != 0, OrigTag: r.Intn(3) == 0}
 		if r.Intn(3) == 0 {
-			sp.RouteTryMs = slot + 20
+			sp.RouteTryMs = slot + 15
 		}
 		if r.Intn(4) == 0 {
 			sp.StatusCodes = [][]int{{503}, {404, 503}, {500}}[r.Intn(3)]
